@@ -792,6 +792,15 @@ func (w *c16World) recv(r *Rec, p c16Pkt) (string, string) {
 			}
 		}
 		switch {
+		case okShape && len(rcv) != common.AddressLength:
+			// own computation: only a 20-byte account address HAS an EVM account (the same 20 bytes). For any other length the
+			// tokens necessarily went to an account that is not the receiver's (last 20 bytes / left-padded), while the vouchers
+			// were taken from the receiver: only "vouchers untouched" is acceptable.
+			w.fail(r, fmt.Sprintf("C16:conversion-credited-foreign-account:len=%d", len(rcv)),
+				fmt.Sprintf("the receiver is a %d-byte account address; its vouchers were escrowed but the ERC-20 tokens were credited to the 20-byte EVM account %s, which is not the receiver's account",
+					len(rcv), recvEvm.Hex()),
+				fmt.Sprintf("bank diff [%s] token balances %v", strings.Join(diff, "; "), tokChanged),
+				"vouchers left untouched in the receiver's account (no EVM account corresponds to a non-20-byte address)")
 		case okShape && nCredited == 1 && convD == credited && amt != nil && convA.Cmp(amt) == 0:
 			converted = true
 		case okShape && convD != credited:
@@ -931,6 +940,31 @@ func (w *c16World) recv(r *Rec, p c16Pkt) (string, string) {
 	}
 	if rcv != nil && w.app.BankKeeper.BlockedAddr(rcv) {
 		r.Count("recv.receiver-blocked")
+	}
+	if innerOK && rcv != nil {
+		lc := fmt.Sprintf("recv.rcvlen.%d", len(rcv))
+		switch l := len(rcv); {
+		case l == 1 || l == 19 || l == 20 || l == 21 || l == 32 || l == 64 || l == 255:
+		default:
+			lc = "recv.rcvlen.other"
+		}
+		r.Count(lc)
+		switch {
+		case !hadPair:
+			r.Count(lc + ".unregistered")
+		case !pairBefore.Enabled:
+			r.Count(lc + ".registered-disabled")
+		default:
+			r.Count(lc + ".registered-enabled")
+			if pairBefore.IsNativeERC20() {
+				r.Count(lc + ".registered-enabled.erc20-owned")
+			} else if pairBefore.IsNativeCoin() {
+				r.Count(lc + ".registered-enabled.coin-owned")
+			}
+			if converted {
+				r.Count(lc + ".converted")
+			}
+		}
 	}
 	if innerOK && lookalike {
 		r.Count("recv.lookalike")
@@ -1280,7 +1314,7 @@ func TestC16(t *testing.T) {
 	for _, h := range corpusOps("C16") {
 		w.run(r, append([]string{"reset"}, h...))
 	}
-	hist := 320
+	hist := 400
 	if r.Tier == "thorough" {
 		hist = 1500
 	}
@@ -1306,6 +1340,10 @@ func TestC16(t *testing.T) {
 		"", " ", "xyz", otherHrp, string(broken), "0x1111111111111111111111111111111111111111", strings.ToUpper(addr(0x22, 20).String())}
 	for _, m := range []string{"fee_collector", "distribution", "bonded_tokens_pool", "not_bonded_tokens_pool", "gov", "evm", "packet", "interchainaccounts", "rvesting"} {
 		oddRecv = append(oddRecv, authtypes.NewModuleAddress(m).String()) // blocked (distribution: allowed) module accounts
+	}
+	var lenRecv []string
+	for i, n := range []int{1, 19, 21, 32, 32, 64, 255} {
+		lenRecv = append(lenRecv, addr(byte(0xa0+i), n).String())
 	}
 	max256 := new(big.Int).Sub(new(big.Int).Lsh(big.NewInt(1), 256), big.NewInt(1))
 	goodAmt := []string{"1", "7", "1000000", "123456789012345678901234567890"}
@@ -1604,8 +1642,10 @@ func TestC16(t *testing.T) {
 				}
 				usedSeq[fmt.Sprintf("%s/%d", p.dc, p.seq)] = true
 				receiver := pick(goodRecv)
-				if rng.Intn(8) == 0 {
+				if x := rng.Intn(16); x < 2 {
 					receiver = pick(oddRecv)
+				} else if x < 6 { // valid account addresses of every length the SDK allows (1..255 bytes)
+					receiver = pick(lenRecv)
 				}
 				sender := pick(senders)
 				if rng.Intn(40) == 0 {
